@@ -170,6 +170,21 @@ def add_header_to_file(
         out.write("\n")
         result = 1
     else:
+        try:
+            # Opening the file for writing truncates it. Text that cannot be
+            # encoded (a lone surrogate from a command-line argument that is
+            # not valid UTF-8) must be found out before that, or the file
+            # loses its contents.
+            (bom + output).encode("utf-8")
+        except UnicodeEncodeError:
+            out.write(
+                _(
+                    "Error: The header for '{path}' contains characters that"
+                    " cannot be encoded as UTF-8. Did not write new header."
+                ).format(path=path)
+            )
+            out.write("\n")
+            return 1
         with open(path, "w", encoding="utf-8", newline=line_ending) as fp:
             fp.write(bom + output)
         # TODO: This may need to be rephrased more elegantly.
